@@ -223,6 +223,15 @@ def census(ck, mod, label):
                     ck.ok("R-C16-CENSUS", f.name, cons, "whole-state wipe in the free function", where=where)
                 else:
                     sts = [w for (w, kk, _) in lw if kk == "store"]
+                    # the documented setter called on this state is a write of the limit too (its value is R-C16-CLAMP's matter)
+                    sts += [c_ for c_ in f.calls("tinyjambu_prng_set_reseed_limit") if ir.ptr_base(f, c_.call_args()[0]) == (("a", 0), 0)]
+                    for c_ in sts:
+                        if c_.op == "call" and f.name == "tinyjambu_prng_init_user":
+                            a_ = c_.call_args()[1]
+                            if a_[0] != "c":
+                                raise Broken("tinyjambu_prng_init_user sets the default limit through the setter with a value that is not a constant: not decided")
+                            ck.ob(const_val(a_) == 1024, "R-C16-CLAMP", f.name, "default-limit[%s]" % label, "default limit is 1024 bytes (through the documented setter)",
+                                  "default limit is %d bytes, documented default is 1024" % const_val(a_), where=relpath(c_.where))
                     esc = ir.rets_reachable_avoiding(f, [s.id for s in sts], start=I.id)
                     ck.ob(bool(sts) and not esc, "R-C16-CENSUS", f.name, cons, "zero fill of the state is followed on every path by a store of the limit",
                           "the limit field is zero-filled and a path returns without setting it (limit 0 = reseed storm or, with '>' guard, never)", where=where)
